@@ -20,6 +20,7 @@ package replica
 import (
 	"context"
 	"io"
+	"runtime"
 	"runtime/pprof"
 	"sync"
 	"time"
@@ -282,15 +283,27 @@ func (fc *familyChannel) writeTask(_ context.Context) {
 				fc.logger.Error("send message failure before close channel, message lost")
 			}
 		}
+		// NOTE: chunk is written/compressed by ingestion goroutines under write lock, must hold the lock here too.
+		// A writer holding the lock maybe blocks on the full channel, so keep draining while waiting for the lock.
+		for !fc.lock4write.TryLock() {
+			select {
+			case compressed := <-fc.ch:
+				sendLastMsg(compressed)
+			default:
+				runtime.Gosched()
+			}
+		}
+		var compressed []byte
+		var err0 error
 		// flush chunk pending data if chunk not empty
 		if !fc.chunk.IsEmpty() {
-			// flush chunk pending data if chunk not empty
-			compressed, err0 := fc.chunk.Compress()
-			if err0 != nil {
-				fc.logger.Error("compress chunk err when send last chunk data", logger.Error(err0))
-			} else {
-				sendLastMsg(compressed)
-			}
+			compressed, err0 = fc.chunk.Compress()
+		}
+		fc.lock4write.Unlock()
+		if err0 != nil {
+			fc.logger.Error("compress chunk err when send last chunk data", logger.Error(err0))
+		} else {
+			sendLastMsg(compressed)
 		}
 		fc.sendPendingMessage(sendLastMsg)
 	}
